@@ -617,6 +617,7 @@ func buildOps(nch int) []op {
 			}
 			if rc && cur >= 0 {
 				w.Pending[ci]++
+				w.EverQueued[ci]++
 			}
 			return want{handler: []string{}, custom: func(d Delta) string {
 				if s := chk(d); s != "" {
@@ -656,6 +657,7 @@ func buildOps(nch int) []op {
 			w.Store[ci] = false
 			w.ReqCancelled[ci] = false
 			w.Pending[ci] = 0
+			w.EverQueued[ci] = 0
 			for r, o := range w.Owner {
 				if o == ci {
 					delete(w.Owner, r)
@@ -724,10 +726,28 @@ func propOf(s string) string {
 	return ""
 }
 
-func c16(x *mc.Cell, nch, depth, maxStates int) {
+// focusRestartCycles is the sub-alphabet around requester-cancel / re-request cycles.
+var focusRestartCycles = []string{"open(ch0)", "finish(cur(ch0),client-cancelled)", "finish(cur(ch0),ok)", "close(ch0)", "incoming(ch1,new)", "incoming(ch1,restart)",
+	"requestor-cancelled(cur(ch1))", "resume(ch1)", "pause(ch1)", "close(ch1)", "cleanup(ch1)", "use-store(ch1)", "completed-response(cur(ch1),20)"}
+
+func c16(x *mc.Cell, nch, depth, maxStates int, focus ...string) {
 	ops := buildOps(nch)
+	if len(focus) > 0 {
+		var sel []op
+		for _, o := range ops {
+			for _, f := range focus {
+				if o.name == f {
+					sel = append(sel, o)
+				}
+			}
+		}
+		ops = sel
+	}
 	opName := func(i int) string { return ops[i].name }
 	name := fmt.Sprintf("c16-routing-%dch", nch)
+	if len(focus) > 0 {
+		name += "-focused"
+	}
 	x.BFS(name, mc.BFSOpts{NumOps: len(ops), MaxDepth: depth, MaxStates: maxStates, OpName: opName}, func(hist []int) (string, bool) {
 		key, enabled := "", true
 		rep := mc.BFSReplay(name, hist, opName)
@@ -738,7 +758,7 @@ func c16(x *mc.Cell, nch, depth, maxStates int) {
 			for hi, oi := range hist {
 				last := hi == len(hist)-1
 				o := ops[oi]
-				if o.enabled != nil && !o.enabled(w) {
+				if w.Shutdown || (o.enabled != nil && !o.enabled(w)) { // after Shutdown graphsync fires no more callbacks; the state is final
 					if last {
 						enabled = false
 					}
@@ -764,7 +784,11 @@ func c16(x *mc.Cell, nch, depth, maxStates int) {
 							if len(o.name) >= 5 && o.name[:5] == "close" {
 								x.Violate("C09", "transport-close-did-not-return;op="+o.name, msg, rep)
 							}
-							x.Fatal = true
+							// the blocked call cannot be released: this worker ends here
+							if x.Prop == "C20" || (x.Prop == "C09" && len(o.name) >= 5 && o.name[:5] == "close") {
+								x.Die()
+							}
+							x.Abandon("a transport call did not return (reported by the C20 / C09 checks); exploration of this cell stops")
 						} else {
 							viol("callback-effect", s)
 							if p := propOf(s); p != "" {
@@ -830,6 +854,10 @@ func containsStr(s, sub string) bool {
 func init() {
 	mc.Register("C16", "routing-2-channels", "quick", func(x *mc.Cell) { c16(x, 2, 4, 0) })
 	mc.Register("C16", "routing-3-channels", "thorough", func(x *mc.Cell) { c16(x, 3, 5, 60000) })
+	for _, p := range []string{"C10", "C16"} {
+		mc.Register(p, "transport-restart-cycles", "quick", func(x *mc.Cell) { c16(x, 2, 6, 0, focusRestartCycles...) })
+		mc.Register(p, "transport-restart-cycles", "thorough", func(x *mc.Cell) { c16(x, 2, 8, 80000, focusRestartCycles...) })
+	}
 	for _, p := range []string{"C20", "C09", "C10", "C07"} {
 		mc.Register(p, "transport-routing-2-channels", "quick", func(x *mc.Cell) { c16(x, 2, 3, 0) })
 		mc.Register(p, "transport-routing-3-channels", "thorough", func(x *mc.Cell) { c16(x, 3, 4, 60000) })
